@@ -193,6 +193,9 @@ pub struct Finding {
     pub what: String,
     #[serde(default)]
     pub commit: String,
+    /// minimised replay file (relative to /verif) that reproduces the finding
+    #[serde(default)]
+    pub replay: String,
 }
 
 #[derive(Deserialize, Clone, Debug, Default)]
